@@ -333,7 +333,9 @@ def run_check(pid, tier, seed, replay):
     forb = grep_forbidden()
     for h in forb:
         failures.append({"kind": "audit", "name": "forbidden token", "detail": h})
-    n_facts = len(P.get("fact_obligations", []))
+    # fact obligations that are themselves audited theorems (fact_Cxx_*) are not counted twice
+    audited = {n.split(".")[-1] for (n, _) in thm_ok} | {n.split(".")[-1] for (n, _) in thm_bad}
+    n_facts = len([f for f in P.get("fact_obligations", []) if f not in audited])
     obligations = len(thm_ok) + len(thm_bad) + n_facts
     if not bok:
         # count obligations from source even if the build broke
